@@ -13,7 +13,7 @@ import (
 
 func init() {
 	Register("C14", "Decides, on the per-byte summaries of every state function of the schema-side scanners (notations/jschema/scanner, rules/enum): (nl) LF and CR have identical rows in every state, so the newline convention cannot change the lexeme stream; (blank) in every between-token state SPACE and TAB have identical rows; (norm) rule names are compared only after TrimSpaces().Unquote(), so quoted and bare rule names mean the same; (deleg) re-dispatch of one byte between states terminates. (space) a skipped blank leaves no trace; (style) every test for one annotation opener is paired with the test for the other. Does NOT decide equality of AST/example/OpenAPI across spellings.",
-		c14nl, c14blank, c14space, c14norm, c14style, c14nlre)
+		c14nl, c14blank, c14space, c14norm, c14style, c14nlre, c14emptycomment)
 }
 
 var schemaScanners = []string{"notations/jschema/scanner", "rules/enum"}
@@ -435,5 +435,75 @@ func c14nlre(c *core.Ctx) {
 		}
 		ok := re.MatchString("\n") == re.MatchString("\r") && re.MatchString(" ") == re.MatchString("\t")
 		c.Check(ok, R, key, pos, "constant pattern `"+pat+"` treats LF/CR and SPACE/TAB alike", core.F("matches LF:%v CR:%v SPACE:%v TAB:%v - texts that differ only in the newline convention or in the kind of blank are transformed differently", re.MatchString("\n"), re.MatchString("\r"), re.MatchString(" "), re.MatchString("\t")))
+	}
+}
+
+// c14emptycomment: a line end right after a comment opener is the end of the (empty) comment.
+func c14emptycomment(c *core.Ctx) {
+	const R = "C14.emptycomment"
+	c.Rule(R, "for every state S that, on an ordinary byte, simply enters a line-scoped state T (no lexeme; T ends at the line end: its LF row pops the return state and emits NewLine) - the byte after a `#` opener - the LF row of S must also emit NewLine: a line end in that position is the end of an empty comment. If S consumed it as the first byte of the comment, the comment would run to the end of the NEXT line and swallow whatever is written there (`{ #⏎ \"a\": 1⏎}` loses the property a)")
+	c.Floor(R, 1)
+	n := 0
+	for _, pk := range schemaScanners {
+		m := buildScanModel(c, pk)
+		for _, name := range m.names {
+			rows := m.rows[name]
+			target := ""
+			ok := len(rows['a'].paths) > 0
+			for _, p := range rows['a'].paths {
+				if p.kind != "return" || p.next == "" || p.next == name || p.next == "<pop>" || p.next == "<dyn>" || len(p.finds) > 0 || len(p.pushes) > 0 || p.pops > 0 {
+					ok = false
+					break
+				}
+				if target == "" {
+					target = p.next
+				} else if target != p.next {
+					ok = false
+				}
+			}
+			if !ok || target == "" {
+				continue
+			}
+			trows, exists := m.rows[target]
+			if !exists {
+				continue
+			}
+			lineScoped := false
+			for _, p := range trows['\n'].paths {
+				nl := false
+				for _, f := range p.finds {
+					if f == "NewLine" {
+						nl = true
+					}
+				}
+				if nl && len(p.finds) == 1 && (p.pops > 0 || p.next == "<pop>") {
+					lineScoped = true
+				}
+			}
+			// T must be a pure skip state otherwise (text of a comment): ordinary bytes keep it
+			if !lineScoped || !effectFreeSelfLoop(trows['a']) {
+				continue
+			}
+			n++
+			good := len(rows['\n'].paths) > 0
+			for _, p := range rows['\n'].paths {
+				if p.kind != "return" {
+					continue
+				}
+				nl := false
+				for _, f := range p.finds {
+					if f == "NewLine" {
+						nl = true
+					}
+				}
+				if !nl {
+					good = false
+				}
+			}
+			c.Check(good, R, pk+"."+name, c.P.Pos(m.states[name].Pos()), "state "+name+" (enters "+target+"): a line end ends the empty comment", "the line end after the opener is consumed as comment text: the following line is swallowed by the comment")
+		}
+	}
+	if n == 0 {
+		c.Bad(R, "states", "-", "comment-opener states", "undecided: no state enters a line-scoped skip state on an ordinary byte")
 	}
 }
